@@ -65,10 +65,14 @@ def eff(own, glob):
     return tuple(g if o is None else o for o, g in zip(own, glob))
 
 
-def sweep_points(rng, pmin, pnom, delta, n_dense):
+def sweep_points(rng, pmin, pnom, delta, n_dense, shipped=None):
+    """delta: the documented band width of this junction; shipped: pdd_smoothing_delta (its joints are sampled too, so that a
+    band that is wider than documented shows as a jump there)"""
     R = pnom - pmin
     pts = [pmin - 1e6, pmin - 1e4, pmin - 100.0, pmin - 1.0, pmin - 1e-6, pnom + 1e-6, pnom + 1.0, pnom + 100.0, pnom + 1e4, pnom + 1e6]
     joints = [pmin, pmin + delta, pnom - delta, pnom]
+    if shipped is not None and shipped != delta:
+        joints += [c for c in (pmin + shipped, pnom - shipped) if pmin < c < pnom]
     for c in joints:
         for k in (-2, -1, 0, 1, 2):
             pts.append(ulp_steps(c, k))
@@ -139,7 +143,7 @@ class C07(Check):
                 pm = gl[0] if own[0] is None else own[0]
                 if own[0] is not None or rng.random() < 0.5:
                     if narrow:
-                        own[1] = pm + rng.choice([rng.uniform(0.051, 0.0999), rng.uniform(0.001, 0.049), 0.075])
+                        own[1] = pm + rng.choice([rng.uniform(0.051, 0.0999), rng.uniform(0.005, 0.049), 0.075, 0.07])
                     else:
                         own[1] = pm + rng.choice([rng.uniform(0.1001, 0.5), rng.uniform(0.5, 15), rng.uniform(15, 80), 0.1 + 1e-9])
                 if rng.random() < 0.5:
@@ -148,9 +152,31 @@ class C07(Check):
                 elev = rng.choice([0.0, 0.0, round(rng.uniform(-20, 120), 2)])
                 specs.append({"own": tuple(own), "D": D, "elev": elev})
             if narrow:
-                # make the global narrow too when no own pnom
-                gl = (gl[0], gl[0] + rng.choice([0.075, rng.uniform(0.051, 0.099)]), gl[2])
+                # make the global narrow too when no own pnom (0.07 m above Pmin = 0 are WNTR's DEFAULT options)
+                gl = (gl[0], gl[0] + rng.choice([0.075, 0.07, rng.uniform(0.051, 0.099)]), gl[2])
             cases.append({"glob": gl, "specs": specs})
+        return cases
+
+    def _malformed_cases(self, ctx, n):
+        """parameter sets outside the statement (Preq <= Pmin, Preq <= smoothing delta): the build must refuse them exactly
+        when the generated pnomBuild / pddPolyBuild refuse (no oracle, correspondence only)"""
+        rng = ctx.rng
+        cases = []
+        for _ in range(n):
+            pm = rng.choice([0.0, 2.0, round(rng.uniform(0, 5), 2)])
+            kind = rng.choice(["le_pmin", "eq_pmin", "le_delta", "ok_small"])
+            if kind == "le_pmin":
+                pn = pm - rng.choice([0.5, 1e-9, 3.0])
+            elif kind == "eq_pmin":
+                pn = pm
+            elif kind == "le_delta":
+                pm, pn = rng.choice([0.0, -1.0]), rng.choice([0.05, 0.04, 0.01])
+            else:
+                pn = pm + rng.choice([0.0501, 0.06, 1e-3 + 0.05])
+            own = rng.random() < 0.5
+            gl = (0.0, 20.0, 0.5) if own else (pm, pn, 0.5)
+            spec = {"own": (pm, pn, None) if own else (None, None, None), "D": 0.01, "elev": 0.0}
+            cases.append({"glob": gl, "specs": [{"own": (None, None, None), "D": 0.02, "elev": 1.0}, spec] if rng.random() < 0.5 else [spec], "malformed": kind})
         return cases
 
     def _eval_case(self, ctx, wntr, case, n_dense, narrow=False):
@@ -160,17 +186,27 @@ class C07(Check):
         try:
             wn, m = build_case(wntr, case["glob"], case["specs"])
         except Exception as e:
-            return [{"error": "%s: %s" % (type(e).__name__, e)}], []
+            # a refused build: the Lean build model must refuse at least one junction's parameters, too
+            ls = []
+            for k, s in enumerate(case["specs"]):
+                pmin, pnom, e = eff(s["own"], case["glob"])
+                ls.append("pddcurve %s %s %s %s" % (fbits(pmin), fbits(pnom), fbits(e), fbits(pmin)))
+            return [{"error": "%s: %s" % (type(e).__name__, e), "etype": type(e).__name__, "nlines": len(ls), "case": case}], ls
         recs, lines = [], []
         for k, s in enumerate(case["specs"]):
             nm = "J%d" % k
             pmin, pnom, e = eff(s["own"], case["glob"])
             rec = {"node": nm, "glob": case["glob"], "own": s["own"], "D": s["D"], "elev": s["elev"], "pmin": pmin, "pnom": pnom, "e": e,
-                   "pts": [], "narrow": narrow}
+                   "pts": [], "narrow": (pnom - pmin) < 2 * delta}
             par = {"pmin": m.pmin[nm].value, "pnom": m.pnom[nm].value, "elev": m.elevation[nm].value, "D": m.expected_demand[nm].value}
+            # the junction's band width: a parameter of the (repaired) model; the unrepaired code bakes the constant in
+            par["delta"] = m.pdd_delta[nm].value if hasattr(m, "pdd_delta") and nm in m.pdd_delta else delta
             co = [getattr(m, c)[nm].value for c in COEFFS]
             rec["par"], rec["co"] = par, co
-            pts, joints = sweep_points(rng, pmin, pnom, delta, n_dense)
+            # documented band width: the shipped delta, but the two bands never overlap
+            de = min(delta, (pnom - pmin) / 2.0) if pnom > pmin else delta
+            rec["de"] = de
+            pts, joints = sweep_points(rng, pmin, pnom, de, n_dense, delta)
             rec["joints"] = joints
             for p in pts:
                 head = s["elev"] + p
@@ -181,14 +217,14 @@ class C07(Check):
                     m.demand[nm].value = dval
                     r = m.pdd[nm].evaluate()
                     rec["pts"].append((pp, head, dval, r))
-                    lines.append("pddrow %s %s" % (vlib.frac_str(e), " ".join(fbits(x) for x in [head, dval, par["D"], par["pmin"], par["pnom"], par["elev"]] + co)))
+                    lines.append("pddrow %s %s" % (vlib.frac_str(e), " ".join(fbits(x) for x in [head, dval, par["D"], par["pmin"], par["pnom"], par["elev"]] + co + [par["delta"]])))
                     lines.append("pddcurve %s %s %s %s" % (fbits(pmin), fbits(pnom), fbits(e), fbits(pp)))
             recs.append(rec)
         return recs, lines
 
     def _judge(self, ctx, rec, out_it, failures, broken):
         """compare one junction's sweep with the Lean driver, then apply the property oracle to the implementation"""
-        delta, slope = float(self.delta), float(self.slope)
+        delta, slope = float(rec["de"]), float(self.slope)
         pmin, pnom, e, D = rec["pmin"], rec["pnom"], rec["e"], rec["D"]
         R = pnom - pmin
         cls = "narrow" if rec["narrow"] else "main"
@@ -203,8 +239,14 @@ class C07(Check):
         lean_co = None
         for (pp, head, dval, r) in rec["pts"]:
             lr = bitsf(next(out_it))
-            cur = [bitsf(x) for x in next(out_it).split()]
-            lean_co = cur[1:]
+            o2 = next(out_it)
+            if o2 == "reject":
+                bad_corr = bad_corr or ("accepted by the code, refused by the generated build model", pmin, pnom)
+                cur = [float("nan")] * 10
+            else:
+                cur = [bitsf(x) for x in o2.split()]
+            lean_co = cur[1:9]
+            lean_delta = cur[9]
             scale = abs(dval) + abs(D) * (1.0 + abs(pp) ** 3 * (abs(rec["co"][0]) + abs(rec["co"][4])) + abs(rec["co"][3]) + abs(rec["co"][7]))
             if not (r == lr or abs(r - lr) <= 1e-12 * scale or (math.isnan(r) and math.isnan(lr))):
                 bad_corr = bad_corr or ("row", pp, r, lr)
@@ -217,12 +259,14 @@ class C07(Check):
             ctx.count("regime:" + regime)
         ctx.count("override:" + pat)
         ctx.count("class:" + cls)
-        # coefficients: generated spline code at Float vs the model's parameter values
-        if lean_co is not None and not rec["narrow"]:
+        # band width and coefficients: generated build / spline code at Float vs the model's parameter values
+        if lean_co is not None:
+            if not (rec["par"]["delta"] == lean_delta):
+                bad_corr = bad_corr or ("band width m.pdd_delta", rec["par"]["delta"], lean_delta)
             for a, b in zip(rec["co"], lean_co):
                 if not (a == b or abs(a - b) <= 1e-9 * max(abs(a), abs(b), 1e-300)):
                     bad_corr = bad_corr or ("coeff", rec["co"], lean_co)
-        if bad_corr and not rec["narrow"]:
+        if bad_corr:
             broken.append(Broken("correspondence", "m.pdd residual / spline coefficients vs Lean driver",
                                  "junction %s %s: %r" % (rec["node"], json.dumps(replay), bad_corr)))
         if D == 0:
@@ -232,7 +276,10 @@ class C07(Check):
                     failures.append(Failure("pdd-curve-zero-demand-%s" % cls, "requested demand 0 but delivered %r at p=%r" % (dval - r, pp), dict(replay, p=pp, observed=dval - r)))
                     break
             return
-        tol = 1e-7
+        # the shipped cubics are evaluated in the monomial basis at the absolute pressure: their rounding error grows like
+        # eps * |a| * x^3 with a ~ (1/R)/w^2 (w the band width): 1e-7 of D for ordinary parameters, more for very narrow ranges
+        xm = max(abs(pmin), abs(pnom), 1.0)
+        tol = 1e-7 + 1.8e-15 * (1.0 / R) * xm ** 3 / (delta * delta)
         what = None
         # branch values
         for (pp, f, fl, dval, r) in fr:
@@ -272,7 +319,7 @@ class C07(Check):
                     break
                 prev = (pp, f)
         # Lean curve (generated spline code, Float) vs implementation
-        if what is None and not rec["narrow"]:
+        if what is None:
             for (pp, f, fl, dval, r) in fr:
                 if abs(f - fl) > 1e-9 * max(1.0, abs(f)):
                     broken.append(Broken("correspondence", "delivered fraction vs Lean pddFrac with generated coefficients",
@@ -305,10 +352,24 @@ class C07(Check):
         for rec in allrecs:
             if "error" in rec:
                 ctx.count("build_error")
-                if "must be greater than" in rec["error"]:
-                    ctx.count("refused:required_pressure<=delta")  # documented refusal of Preq <= smoothing delta
-                elif not narrow:
-                    failures.append(Failure("pdd-model-build", "create_hydraulic_model fails on a valid PDD configuration: " + rec["error"], {"error": rec["error"]}))
+                answers = [next(it) for _ in range(rec["nlines"])]
+                case = rec["case"]
+                effs = [eff(s_["own"], case["glob"]) for s_ in case["specs"]]
+                valid = all(pn > pm and pn > float(self.delta) for (pm, pn, _e) in effs)
+                ctx.case(("refused", rec["etype"], case.get("malformed")), nontrivial=True)
+                if rec["etype"] == "ValueError" and "must be greater than" in rec["error"]:
+                    ctx.count("refused:" + ("required_pressure<=minimum_pressure" if "minimum pressure" in rec["error"] else "required_pressure<=delta"))
+                    if valid:
+                        failures.append(Failure("pdd-model-build", "create_hydraulic_model refuses a valid PDD configuration (every junction has Preq > Pmin and Preq > delta): " + rec["error"], {"error": rec["error"], "case": case}))
+                    elif "reject" not in answers:
+                        broken.append(Broken("correspondence", "refusal of PDD parameters vs generated pnomBuild/pddPolyBuild", "code refuses %s (%s), the build model accepts every junction" % (json.dumps(case), rec["error"])))
+                elif valid:
+                    failures.append(Failure("pdd-model-build", "create_hydraulic_model fails on a valid PDD configuration: " + rec["error"], {"error": rec["error"], "case": case}))
+                else:
+                    # outside the statement (Preq <= Pmin or Preq <= delta) and no clean refusal: counted, not judged
+                    ctx.count("malformed_unclean:" + rec["etype"])
+                    if "reject" not in answers:
+                        broken.append(Broken("correspondence", "refusal of PDD parameters vs generated pnomBuild/pddPolyBuild", "code fails on %s (%s), the build model accepts every junction" % (json.dumps(case), rec["error"])))
                 continue
             self._judge(ctx, rec, it, failures, broken)
             if len(ctx.samples) < 4 and rec["D"] != 0:
@@ -325,6 +386,8 @@ class C07(Check):
         obs = []
         for _ in range(n):
             gl = (rng.choice([0.0, 2.0]), rng.choice([15.0, 25.0, 30.0]), rng.choice([0.5, 0.5, 1.0, 0.7]))
+            if rng.random() < 0.15:
+                gl = (gl[0], gl[0] + 0.07, gl[2])   # WNTR's default Preq - Pmin
             wn = wntr.network.WaterNetworkModel()
             H = rng.uniform(20, 45)
             wn.add_pattern("hp", [1.0, rng.uniform(0.6, 0.9), rng.uniform(1.0, 1.3)])
@@ -336,9 +399,15 @@ class C07(Check):
                 nm = "J%d" % k
                 el = rng.uniform(0, H + 8)
                 D = rng.choice([0.0, rng.uniform(0.002, 0.03)])
-                wn.add_junction(nm, base_demand=D, elevation=el)
+                dpat = None
+                if rng.random() < 0.3:
+                    # the requested demand changes from step to step (pattern), incl. a step with zero demand
+                    dpat = "dp%d" % k
+                    wn.add_pattern(dpat, [1.0, rng.choice([0.0, 0.5, 1.7]), rng.choice([0.3, 2.0])])
+                    ctx.count("sim_demand_pattern")
+                wn.add_junction(nm, base_demand=D, elevation=el, demand_pattern=dpat)
                 j = wn.get_node(nm)
-                if rng.random() < 0.35:
+                if dpat is None and rng.random() < 0.35:
                     # several demand entries; the requested demand is their sum (the first entry may well be zero)
                     for _e in range(rng.randint(1, 2)):
                         extra = rng.uniform(0.002, 0.02)
@@ -347,7 +416,7 @@ class C07(Check):
                     ctx.count("sim_multi_demand_junction" + ("_first_zero" if j.demand_timeseries_list[0].base_value == 0 else ""))
                 own = (rng.choice([None, 1.0]), rng.choice([None, 12.0, 40.0]), rng.choice([None, 0.8, 1.0]))
                 j.minimum_pressure, j.required_pressure, j.pressure_exponent = own
-                conf[nm] = (eff(own, gl), D, el)
+                conf[nm] = (eff(own, gl), D, el, None, dpat)
                 wn.add_pipe("P%d" % k, prev if rng.random() < 0.7 else "R", nm, length=rng.uniform(50, 800), diameter=rng.choice([0.1, 0.2, 0.3]), roughness=100.0)
                 prev = nm
             # in half of the cases the simulator object exists BEFORE the model is switched to pressure-dependent demand
@@ -362,7 +431,8 @@ class C07(Check):
                 # control changes ITS required pressure: after the reconnection it must follow the new value
                 from wntr.network.controls import Control, ControlAction, SimTimeCondition
                 last = "J%d" % (nj - 1)
-                (pmin_l, pnom_l, e_l), D_l, el_l = conf[last]
+                cfl = conf[last]
+                (pmin_l, pnom_l, e_l), D_l, el_l = cfl[0], cfl[1], cfl[2]
                 new_pnom = pnom_l + rng.choice([7.0, 13.0])
                 # put the junction where delivery is partial (pressure about 60 % of the way from Pmin to Preq), with a demand
                 jl = wn.get_node(last)
@@ -377,7 +447,7 @@ class C07(Check):
                 wn.add_control("iso_preq", Control(SimTimeCondition(wn, "=", 7200), ControlAction(wn.get_node(last), "required_pressure", new_pnom)))
                 wn.add_control("iso_open", Control(SimTimeCondition(wn, "=", 10800), ControlAction(pipe, "status", LS.Opened)))
                 wn.options.time.duration = 5 * 3600
-                conf[last] = ((pmin_l, pnom_l, e_l), D_l, el_l, (10800, (pmin_l, new_pnom, e_l)))
+                conf[last] = ((pmin_l, pnom_l, e_l), D_l, el_l, (10800, (pmin_l, new_pnom, e_l)), cfl[4])
                 ctx.count("sim_required_pressure_changed_while_isolated")
             try:
                 res = (early_sim if early_sim is not None else wntr.sim.WNTRSimulator(wn)).run_sim()
@@ -389,10 +459,12 @@ class C07(Check):
                 continue
             ctx.count("sim_ok")
             for nm, cf in conf.items():
-                (pmin0, pnom0, e0), D, el = cf[0], cf[1], cf[2]
+                (pmin0, pnom0, e0), D0, el = cf[0], cf[1], cf[2]
                 change = cf[3] if len(cf) > 3 else None
+                mults = list(wn.get_pattern(cf[4]).multipliers) if len(cf) > 4 and cf[4] else None
                 for t in res.node["pressure"].index:
                     (pmin, pnom, e) = (pmin0, pnom0, e0)
+                    D = D0 * mults[(int(t) // 3600) % len(mults)] if mults else D0
                     if change is not None:
                         if 3600 <= t < change[0]:
                             continue  # cut off from every source: reported as zero (C09), not on the curve
@@ -402,23 +474,129 @@ class C07(Check):
                     d = float(res.node["demand"].loc[t, nm])
                     reqs.append("pddcurve %s %s %s %s" % (fbits(pmin), fbits(pnom), fbits(e), fbits(p)))
                     obs.append((nm, int(t), p, d, D, pmin, pnom, e, gl))
+        return failures + self._judge_sim_points(ctx, reqs, obs)
+
+    def _judge_sim_points(self, ctx, reqs, obs, key="pdd-sim-point", extra=None):
+        """reported (pressure, demand) of real runs against the Lean curve (generated build + spline code at Float)"""
+        failures = []
         if not reqs:
             return failures
+        delta = float(self.delta)
         out = vlib.lean_run(DRIVER, "\n".join(reqs) + "\n")
-        for o, (nm, t, p, d, D, pmin, pnom, e, gl) in zip(out, obs):
+        if len(out) != len(reqs):
+            raise vlib.Infra("RowsDriver returned %d lines for %d requests" % (len(out), len(reqs)))
+        for i, (o, (nm, t, p, d, D, pmin, pnom, e, gl)) in enumerate(zip(out, obs)):
+            if o == "reject":
+                continue
             f = bitsf(o.split()[0])
-            ctx.case(("sim", "below" if p <= pmin else "above" if p >= pnom else "between", D == 0, e), nontrivial=D != 0)
+            de = min(delta, (pnom - pmin) / 2.0)
+            regime = ("below" if p <= pmin else "band1" if p <= pmin + de else "mid" if p <= pnom - de else "band2" if p <= pnom else "above")
+            ctx.case(("sim", regime, D == 0, e, pmin != 0, (pnom - pmin) < 2 * delta), nontrivial=D != 0)
             ctx.count("sim_point")
+            ctx.count("sim_regime:" + regime + (":D=0" if D == 0 else ""))
+            if abs(p - pmin) <= 1e-6 or abs(p - pnom) <= 1e-6 or abs(p - pmin - de) <= 1e-6 or abs(p - pnom + de) <= 1e-6:
+                ctx.count("sim_at_joint(1e-6)")
             if not (abs(d - D * f) <= 2e-6):
+                k = key if isinstance(key, str) else key[i]
                 failures.append(
                     Failure(
-                        "pdd-sim-point",
+                        k,
                         "PDD simulation reports demand %r at pressure %r for junction with Pmin=%r Preq=%r e=%r requested %r; curve gives %r"
                         % (d, p, pmin, pnom, e, D, D * f),
-                        {"node": nm, "t": t, "pressure": p, "demand": d, "requested": D, "pmin": pmin, "pnom": pnom, "e": e, "expected": D * f},
+                        dict({"node": nm, "t": t, "pressure": p, "demand": d, "requested": D, "pmin": pmin, "pnom": pnom, "e": e, "expected": D * f},
+                             **(extra[i] if extra else {})),
                     )
                 )
         return failures
+
+    # ------------------------------------------------------------------ directed real runs
+    def _star(self, wntr, gl, juncs, H=40.0, duration=0):
+        """reservoir R (head H) -- short wide pipe --> each junction; juncs: list of dict(own, D, elev)"""
+        wn = wntr.network.WaterNetworkModel()
+        wn.add_reservoir("R", base_head=H)
+        for k, jn in enumerate(juncs):
+            nm = "J%d" % k
+            wn.add_junction(nm, base_demand=jn["D"], elevation=jn["elev"])
+            j = wn.get_node(nm)
+            j.minimum_pressure, j.required_pressure, j.pressure_exponent = jn["own"]
+            wn.add_pipe("P%d" % k, "R", nm, length=10.0, diameter=0.5, roughness=130.0)
+        h = wn.options.hydraulic
+        h.demand_model = "PDD"
+        h.minimum_pressure, h.required_pressure, h.pressure_exponent = gl
+        wn.options.time.duration = duration
+        wn.options.time.hydraulic_timestep = 3600
+        wn.options.time.pattern_timestep = 3600
+        return wn
+
+    def _directed_sims(self, ctx, wntr):
+        """(a) pressures that LAND on Pmin / Preq / the band edges / inside both bands (elevations are adjusted in a second run so
+        that the solved pressure hits the target), incl. WNTR's default options (Preq = 0.07 m), per-junction exponent != global
+        with Pmin != 0, zero-demand junctions;  (b) a control changes a junction's pressure_exponent / minimum_pressure /
+        required_pressure during the run (the junction stays connected): from that step on the curve of the NEW value holds"""
+        from wntr.network.controls import Control, ControlAction, SimTimeCondition
+        failures = []
+        delta = float(self.delta)
+        reqs, obs, keys, extra = [], [], [], []
+        H = 40.0
+        combos = [((0.0, 0.07, 0.5), (None, None, None)),          # WNTR defaults
+                  ((0.0, 20.0, 0.5), (2.5, 17.0, 0.8)),            # own exponent != global, Pmin != 0
+                  ((1.0, 12.0, 1.0), (None, None, 0.3)),
+                  ((3.0, 3.08, 0.7), (None, None, None))]
+        for gl, own in combos:
+            pmin, pnom, e = eff(own, gl)
+            de = min(delta, (pnom - pmin) / 2.0)
+            targets = [pmin - 0.5, pmin, pmin + de / 2, pmin + de, (pmin + pnom) / 2, pnom - de, pnom - de / 2, pnom, pnom + 0.5, pmin + de / 2]
+            Ds = [0.03] * 9 + [0.0]
+            juncs = [{"own": own, "D": D, "elev": H - tp} for tp, D in zip(targets, Ds)]
+            try:
+                for _pass in range(3):
+                    wn = self._star(wntr, gl, juncs, H)
+                    res = wntr.sim.WNTRSimulator(wn).run_sim()
+                    ps = [float(res.node["pressure"].loc[0, "J%d" % k]) for k in range(len(juncs))]
+                    for jn, p, tp in zip(juncs, ps, targets):
+                        jn["elev"] += p - tp
+            except Exception as ex:
+                ctx.count("directed_sim_error:" + type(ex).__name__)
+                if pnom > pmin and pnom > delta:
+                    failures.append(Failure("pdd-model-build", "PDD run fails for Pmin=%r Preq=%r e=%r: %s: %s" % (pmin, pnom, e, type(ex).__name__, ex),
+                                            {"glob": gl, "own": own, "error": str(ex)}))
+                continue
+            ctx.count("directed_sim_band_landing")
+            for k, jn in enumerate(juncs):
+                p = float(res.node["pressure"].loc[0, "J%d" % k])
+                d = float(res.node["demand"].loc[0, "J%d" % k])
+                reqs.append("pddcurve %s %s %s %s" % (fbits(pmin), fbits(pnom), fbits(e), fbits(p)))
+                obs.append(("J%d" % k, 0, p, d, jn["D"], pmin, pnom, e, gl))
+                keys.append("pdd-band-overlap" if (pnom - pmin) < 2 * delta else "pdd-sim-point")
+                extra.append({"directed": "band-landing", "glob": gl, "own": own, "target": targets[k]})
+        # (b) parameter changed by a control while the junction is connected
+        changes = [("pressure_exponent", 1.0), ("pressure_exponent", 0.3), ("minimum_pressure", 4.0), ("required_pressure", 26.0),
+                   ("required_pressure", 9.0)]
+        gl = (1.0, 18.0, 0.5)
+        for attr, val in changes:
+            for own in ((None, None, None), (0.0, 15.0, 0.7)):
+                pmin, pnom, e = eff(own, gl)
+                tp = pmin + 0.45 * (pnom - pmin)
+                juncs = [{"own": own, "D": 0.02, "elev": H - tp}, {"own": (None, None, None), "D": 0.01, "elev": H - 6.0}]
+                wn = self._star(wntr, gl, juncs, H, duration=3 * 3600)
+                wn.add_control("chg", Control(SimTimeCondition(wn, "=", 3600), ControlAction(wn.get_node("J0"), attr, val)))
+                try:
+                    res = wntr.sim.WNTRSimulator(wn).run_sim()
+                except Exception as ex:
+                    ctx.count("directed_sim_error:" + type(ex).__name__)
+                    continue
+                ctx.count("directed_sim_param_control:" + attr)
+                new = {"minimum_pressure": (val, pnom, e), "required_pressure": (pmin, val, e), "pressure_exponent": (pmin, pnom, val)}[attr]
+                for t in res.node["pressure"].index:
+                    for k, nm in enumerate(("J0", "J1")):
+                        cur = (new if t >= 3600 else (pmin, pnom, e)) if k == 0 else gl
+                        p = float(res.node["pressure"].loc[t, nm])
+                        d = float(res.node["demand"].loc[t, nm])
+                        reqs.append("pddcurve %s %s %s %s" % (fbits(cur[0]), fbits(cur[1]), fbits(cur[2]), fbits(p)))
+                        obs.append((nm, int(t), p, d, juncs[k]["D"], cur[0], cur[1], cur[2], gl))
+                        keys.append("pdd-param-control-ignored:" + attr if (k == 0 and t >= 3600) else "pdd-sim-point")
+                        extra.append({"directed": "param-control", "attr": attr, "value": val, "glob": gl, "own": own})
+        return failures + self._judge_sim_points(ctx, reqs, obs, key=keys, extra=extra)
 
     # ------------------------------------------------------------------ correspondence + oracle
     def correspondence(self, ctx):
@@ -438,10 +616,18 @@ class C07(Check):
         f, b = self._run_cases(ctx, wntr, main_cases + self._gen_cases(ctx, n), 6 if ctx.quick else 20)
         failures += f
         broken += b
-        f, b = self._run_cases(ctx, wntr, narrow_cases + self._gen_cases(ctx, 4 if ctx.quick else 30, narrow=True), 6, narrow=True)
+        # Preq - Pmin < 2*delta (WNTR's default options, Preq = 0.07 m, are of this kind): judged like every other case
+        default_case = {"glob": (0.0, 0.07, 0.5), "specs": [{"own": (None, None, None), "D": 0.01, "elev": 0.0},
+                                                            {"own": (None, None, 1.0), "D": 0.02, "elev": 3.0}]}
+        f, b = self._run_cases(ctx, wntr, narrow_cases + [default_case] + self._gen_cases(ctx, 6 if ctx.quick else 40, narrow=True), 6)
         failures += f
-        # zoo: the very model the Gen file was printed from -- coefficient values vs generated spline code
+        broken += b
+        # parameter sets outside the statement: refusal correspondence only
+        f, b = self._run_cases(ctx, wntr, self._malformed_cases(ctx, 8 if ctx.quick else 60), 2)
+        failures += f
+        broken += b
         failures += self._simulate(ctx, wntr, 6 if ctx.quick else 60)
+        failures += self._directed_sims(ctx, wntr)
         return failures, broken
 
     def search(self, ctx, broken):
